@@ -4,7 +4,7 @@ use crate::{
     model::{
         TryFromNode,
         field::{as_field_name, resolve_type},
-        structures::xml_name_to_rust_name,
+        structures::{as_string_literal_content, xml_name_to_rust_name},
     },
     reader::WriteXml,
 };
@@ -81,7 +81,11 @@ where
         )?;
         writeln!(writer, "        Self {{")?;
         writeln!(writer, "            client: reqwest::Client::new(),")?;
-        writeln!(writer, "            location: \"{}\".to_string(),", self.location)?;
+        writeln!(
+            writer,
+            "            location: \"{}\".to_string(),",
+            as_string_literal_content(self.location.as_str())
+        )?;
         writeln!(writer, "            credentials,")?;
         writeln!(writer, "        }}")?;
         writeln!(writer, "    }}")?;
